@@ -201,6 +201,9 @@ var (
 // field.
 func parseFields(obj any) ([]fieldInfo, error) {
 	v := reflect.ValueOf(obj)
+	if !v.IsValid() || (v.Kind() == reflect.Pointer && v.IsNil()) {
+		return nil, errors.New("value is not a pointer to a struct")
+	}
 	vt := v.Type()
 	if vt.Kind() != reflect.Pointer || vt.Elem().Kind() != reflect.Struct {
 		return nil, errors.New("value is not a pointer to a struct")
